@@ -283,6 +283,7 @@ func buildCases(es []EnumEntry, quick bool) []*Case {
 				case "CommitStepMessage":
 					add(e, "ahead", false)
 					add(e, "behind", false)
+					add(e, "mirror", false)
 				case "ProposalPOLMessage":
 					add(e, "ahead", targetsMaj23(e))
 				default:
@@ -293,6 +294,9 @@ func buildCases(es []EnumEntry, quick bool) []*Case {
 			if cons {
 				for _, m := range []string{"live", "ahead", "behind"} {
 					add(e, m, m == "ahead" && targetsMaj23(e))
+				}
+				if e.Type == "CommitStepMessage" {
+					add(e, "mirror", false)
 				}
 			} else {
 				add(e, "live", false)
@@ -643,7 +647,7 @@ func Run(run *core.Run) core.Coverage {
 	confirmRuns := 0
 	// representatives: the modes whose timing does not matter first (behind: the
 	// claimed height is already stored; ahead: a whole height of margin), live last
-	modeRank := map[string]int{"behind": 0, "ahead": 1, "live": 2}
+	modeRank := map[string]int{"mirror": 0, "behind": 1, "ahead": 2, "live": 3}
 	for _, k := range order {
 		cs := cands[k].cases
 		sort.SliceStable(cs, func(i, j int) bool { return modeRank[cs[i].Mode] < modeRank[cs[j].Mode] })
